@@ -27,6 +27,11 @@ type c04Case struct {
 	Script       memhttp.Script `json:"script"`
 	DropTrailers bool           `json:"drop_trailers"`
 	Limit        int            `json:"limit,omitempty"` // read limit on the receiving side (0 = none)
+	// FakeTrailers: the response (gRPC-Web or Connect streaming, whose
+	// terminator travels in the body) also has HTTP trailers saying
+	// "Grpc-Status: 0", as a gRPC-minded proxy or server might add: they are
+	// not the terminator and must not turn a cut body into a success.
+	FakeTrailers bool `json:"fake_trailers,omitempty"`
 }
 
 func isPrefix(a, b [][]byte) bool {
@@ -85,6 +90,9 @@ func unaryPrefixIsIncomplete(w wireBody, off int) bool {
 
 func c04Check(c *ev.Collector, k c04Case, baseline wireObs) {
 	w := k.Body
+	if k.FakeTrailers {
+		w.Trailer = http.Header{"Grpc-Status": {"0"}}
+	}
 	obs := deliverLimited(w, k.Script, k.DropTrailers, k.Limit)
 	n := len(w.Body)
 	cut := k.Script.Cut
@@ -98,6 +106,10 @@ func c04Check(c *ev.Collector, k c04Case, baseline wireObs) {
 		tags = append(tags, "cut-at-frame-boundary")
 	}
 	desc := fmt.Sprintf("%s cut=%d/%d end=%s withLast=%v dropTrailers=%v", w.key(), cut, n, k.Script.End, k.Script.WithLast, k.DropTrailers)
+	if k.FakeTrailers {
+		tags = append(tags, "http-trailers-claim-ok")
+		desc += " httpTrailers={Grpc-Status:0}"
+	}
 	c.AddTransitions(3)
 	c.AddStates(2)
 	c.AddTraces(1)
@@ -151,7 +163,7 @@ func c04Check(c *ev.Collector, k c04Case, baseline wireObs) {
 		case mustFail && baseOK && (strings.HasPrefix(obs.End, "err:code_0") || strings.HasPrefix(obs.End, "err:uncoded")):
 			bad = true
 			viol("coded-error", "uncoded", "failure is not a coded non-OK error: %s", obs.End)
-		case complete && cleanEnd && (!k.DropTrailers || w.Proto != PGRPC) && obs.String() != baseline.String():
+		case complete && cleanEnd && (!k.DropTrailers || w.Proto != PGRPC) && !k.FakeTrailers && obs.String() != baseline.String():
 			bad = true
 			viol("uncut-outcome", "differs", "complete body observed %s, uncut outcome %s", clip(obs.String(), 300), clip(baseline.String(), 300))
 		}
@@ -580,7 +592,7 @@ func TestC04(t *testing.T) {
 			batch = nil
 			Bubble(t, func() {
 				for _, k := range b {
-					c.Case(fmt.Sprintf("%s|%d|%s|%v|%v|limit%d", w.key(), k.Script.Cut, k.Script.End, k.Script.WithLast, k.DropTrailers, k.Limit), k.Script.Cut < n || k.Script.End != "eof")
+					c.Case(fmt.Sprintf("%s|%d|%s|%v|%v|limit%d|fake%v", w.key(), k.Script.Cut, k.Script.End, k.Script.WithLast, k.DropTrailers, k.Limit, k.FakeTrailers), k.Script.Cut < n || k.Script.End != "eof")
 					c04Check(c, k, base)
 				}
 			})
@@ -614,6 +626,9 @@ func TestC04(t *testing.T) {
 							continue // a shorter unary Connect body is a different complete body (not judged)
 						}
 						batch = append(batch, c04Case{Body: w, Script: memhttp.Script{Cut: off, End: end, WithLast: wl}, DropTrailers: drop})
+						if end == "eof" && drop && !w.Request && (w.Proto == PGRPCWeb || (w.Proto == PConnect && w.Kind != KUnary)) {
+							batch = append(batch, c04Case{Body: w, Script: memhttp.Script{Cut: off, End: end, WithLast: wl}, FakeTrailers: true})
+						}
 						if compressedUnaryConnect(w) {
 							// the same under a read limit of exactly the message's decompressed size
 							if plain, err := Gunzip(w.Body); err == nil && len(plain) >= len(w.Body) {
